@@ -48,7 +48,7 @@ ASSUMPTIONS = [
     "auxiliary (non-ODX) archive members are outside the property and not compared",
     "behavioural equality is judged on a fixed script: encode every request of every ECU variant with searched parameter values, decode the result, encode/decode the first positive response; results and exception type names must agree",
 ]
-MUST_HIT = ["example", "kind:samename", "samename-entry", "text-with-tab-lf", "kind:text", "kind:raw", "kind:bool", "kind:int", "kind:enum", "kind:sub",
+MUST_HIT = ["generated", "gen:deco:pos-response-suppressable", "gen:deco:sdg:STRUCTURE", "gen:deco:sdg:PARAM", "gen:const:bytefield", "gen:mux", "gen:dlfield", "gen:table", "gen:dtc", "gen:emfield", "gen:dct:paramlen", "example", "kind:samename", "samename-entry", "text-with-tab-lf", "kind:text", "kind:raw", "kind:bool", "kind:int", "kind:enum", "kind:sub",
             "kind:sublist", "kind:xhtml", "composed", "entry:load_directory", "entry:load_files",
             "entry:load_pdx_file-permuted", "roundtrip-ok", "behaviour-encoded"]
 
@@ -57,13 +57,70 @@ QUICK_SLICE = 8
 
 
 def extra_databases(tier: str, seed: int) -> list:
-    """HOOK for generated documents (DESIGN C11 domain (b)).
+    """HOOK for hand-made documents (DESIGN C11 domain (b)).
 
     Return a list of `{"name": str, "files": {member_name: bytes}}`; every entry is written to a
     temporary directory, loaded with `odxtools.load_files` in strict mode and pushed through the
-    same oracle as the shipped examples (see `_eval_extra`).  The general ODX IR emitter is being
-    written by another builder; until it is wired in here this returns []."""
+    same oracle as the shipped examples (see `_eval_extra`).  Generated documents come from the
+    "generated" shards below (`_eval_generated`), which use the message IR emitter of vlib/emit.py."""
     return []
+
+
+SDG_TARGETS = ["STRUCTURE", "DATA-OBJECT-PROP", "REQUEST", "POS-RESPONSE", "NEG-RESPONSE", "DIAG-SERVICE", "PARAM",
+               "TABLE", "TABLE-ROW", "MUX", "DTC-DOP", "STATIC-FIELD", "DYNAMIC-LENGTH-FIELD", "END-OF-PDU-FIELD",
+               "DYNAMIC-ENDMARKER-FIELD", "ENV-DATA", "ENV-DATA-DESC", "DTC"]
+
+
+def decorate(draw, xml: str):
+    """adds elements the message IR does not know (special data groups with XML meta characters, a
+    POS-RESPONSE-SUPPRESSABLE) to a generated document by text insertion; all of them are read by the parser"""
+    from hypothesis import strategies as st
+    feats = []
+    n = [0]
+
+    def sdgs():
+        n[0] += 1
+        si = draw(st.sampled_from(["plain", "a&b", "x<y", 'q"uote', "it's"]))
+        txt = draw(st.sampled_from(["text", "a&b<c>", "  spaced  ", "x\ty", ""]))
+        from xml.sax.saxutils import escape, quoteattr
+        nested = "<SDG><SD>inner</SD></SDG>" if draw(st.booleans()) else ""
+        cap = (f'<SDG-CAPTION ID="sdgcap{n[0]}"><SHORT-NAME>sdgcap{n[0]}</SHORT-NAME></SDG-CAPTION>'
+               if draw(st.booleans()) else "")
+        return (f'<SDGS><SDG SI={quoteattr(si)}>{cap}<SD SI={quoteattr(si)} TI={quoteattr("t" + si)}>{escape(txt)}</SD>'
+                f'{nested}</SDG></SDGS>')
+    for tag in SDG_TARGETS:
+        if draw(st.integers(0, 9)) < 3:
+            pat = re.compile(r"(<" + re.escape(tag) + r"(?: [^>]*)?>(?:<SHORT-NAME>[^<]*</SHORT-NAME>)(?:<LONG-NAME>[^<]*</LONG-NAME>)?)")
+            m = pat.search(xml)
+            if m:
+                xml = xml[:m.end()] + sdgs() + xml[m.end():]
+                feats.append("deco:sdg:" + tag)
+    if draw(st.integers(0, 9)) < 4 and '<SHORT-NAME>sid</SHORT-NAME>' in xml and "</DIAG-SERVICE>" in xml:
+        mask = draw(st.sampled_from(["80", "01", "0100", "FF"]))
+        xml = xml.replace("</DIAG-SERVICE>", f'<POS-RESPONSE-SUPPRESSABLE><BIT-MASK>{mask}</BIT-MASK>'
+                          f'<CODED-CONST-SNREF SHORT-NAME="sid"/></POS-RESPONSE-SUPPRESSABLE></DIAG-SERVICE>', 1)
+        feats.append("deco:pos-response-suppressable")
+    return xml, feats
+
+
+def _eval_generated(case: dict, res: Optional[core.ShardResult]) -> List[core.Failure]:
+    """case = {kind: generated, xml: <ODX document text>}: a document produced by the message-level
+    generator (vlib/gen.py + vlib/emit.py: every parameter kind, DOP kind, diag coded type, fields,
+    multiplexers, tables, DTC-DOPs, environment data ...) pushed through the same round-trip oracle"""
+    from vlib import emit
+    from vlib.models import pdxperturb as pp
+    cm = _quiet()
+    try:
+        pp.set_strict(True)
+        db = emit.load(case["xml"].encode("utf-8"))   # a generated document odxtools rejects is a harness error
+    finally:
+        cm.__exit__(None, None, None)
+    classes = {"generated"} | {"gen:" + f for f in case.get("features", [])}
+    fails = evaluate(db, {"kind": "generated", "xml": case["xml"]}, classes)
+    if res is not None:
+        res.note({"kind": "generated", "features": case.get("features", []), "xml_len": len(case["xml"])}, True,
+                 classes, dig={"xml": case["xml"]})
+    return fails
 
 
 # ---------------------------------------------------------------------------
@@ -514,6 +571,8 @@ def replay(case) -> list:
         return _run_perturb_case(case["db"], prep, None)
     if kind == "order":
         return _eval_order(case, None)
+    if kind == "generated":
+        return _eval_generated(case, None)
     raise AssertionError(f"unknown case kind {kind}")
 
 
@@ -531,6 +590,8 @@ def shards(tier):
     for i in range(n_ord):
         out.append(("order", i))
     out.append(("examples", 0))
+    for i in range(4 if tier == "quick" else 12):
+        out.append(("generated", i))
     return out
 
 
@@ -591,6 +652,27 @@ def run_shard(spec, seed, tier):
                     res.failures += _filter_known(_eval_order(core.plain(c), res), kf, res)
                     n += 1
         res.stages["examples"] = n
+        return res
+
+    if what == "generated":
+        from hypothesis import strategies as st
+        from vlib import emit, gen
+
+        @st.composite
+        def docs(draw):
+            c = draw(gen.message_case())
+            xml = emit.message_doc([c["msg"]]).decode("utf-8")
+            feats = list(c["features"])
+            xml, deco = decorate(draw, xml)
+            return {"kind": "generated", "xml": xml, "features": feats + deco}
+
+        def body(case):
+            return _filter_known(_eval_generated(case, res), kf, res)
+        n = 40 if tier == "quick" else 250
+        found = core.hyp_search(docs(), body, seed, n, shrink_budget_s=40)
+        if found:
+            res.failures.extend(found)
+        res.stages["generated"] = n
         return res
 
     if what == "matrix":
